@@ -109,3 +109,14 @@ CONTRACTS += [
                       "NM": "all(NM(result, n) == NM(hg, n) for n in V(hg))", "weighted": "weighted(result) == weighted(hg)"},
              invariants={0: {"drawn": f"all({NEWC} for k in edges)"}}),
 ]
+
+# HyMMSBMSampler._deg_seq_to_dict (static): the degree sequence as {degree: set of nodes with that degree} - the table _match_sequences and
+# _extract_hye draw nodes from, so that conditioned degrees are attributed to the right nodes (C16)
+CONTRACTS += [
+    Contract("HyMMSBMSampler._deg_seq_to_dict", SAMPLER, ["HyMMSBMSampler", "_deg_seq_to_dict"], properties=["C16"],
+             params={"deg_seq": "Seq[Int]"}, result="Map[Int,Set[Int]]", pure=True, locals={"nodes_with_deg": "Map[Int,Set[Int]]"},
+             ensures={"dom": "all((d in result) == any(0 <= m and m < len(deg_seq) and deg_seq[m] == d for m in Int) for d in Int)",
+                      "val": "all(implies(d in result, (n in result[d]) == (0 <= n and n < len(deg_seq) and deg_seq[n] == d)) for d in Int for n in Int)"},
+             invariants={0: {"dom": "all((d in nodes_with_deg) == any(0 <= m and m < _j0 and deg_seq[m] == d for m in Int) for d in Int)",
+                             "val": "all(implies(d in nodes_with_deg, (n in nodes_with_deg[d]) == (0 <= n and n < _j0 and deg_seq[n] == d)) for d in Int for n in Int)"}}),
+]
